@@ -43,6 +43,7 @@ type nsWorld struct {
 	realNs  map[string]bool // Namespace objects present in the fake cluster
 	phase   string
 	mu      sync.Mutex
+	off     map[string]bool   // namespaces the monitor has been told to stop watching: late events of their (cancelled) informers do not count
 	view    map[string]string // what a hook knows: the Synchronization view + the Events passed on since (nil: not synchronized yet)
 }
 
@@ -54,7 +55,7 @@ func (w *nsWorld) onEvent(ev kemtypes.KubeEvent) {
 		return
 	}
 	for k, o := range ev.Objects {
-		if o.Object == nil || strings.HasPrefix(o.Object.GetName(), "zz-probe-") {
+		if o.Object == nil || strings.HasPrefix(o.Object.GetName(), "zz-probe-") || w.off[o.Object.GetNamespace()] {
 			continue
 		}
 		key := o.Object.GetNamespace() + "/" + o.Object.GetName()
@@ -91,6 +92,7 @@ func (w *nsWorld) newMonitor() {
 	})
 	w.mu.Lock()
 	w.view = nil
+	w.off = map[string]bool{}
 	w.mu.Unlock()
 	w.vm = kem.VerifNewMonitor(w.ctx, w.fc.Client, w.ms, cfg, w.onEvent)
 	w.phase = "none"
@@ -349,6 +351,26 @@ func replayNsCase(n int, c Case, ms *metricstorage.MetricStorage) Result {
 				}
 				time.Sleep(300 * time.Microsecond)
 			}
+			// informers started for a namespace that is gone are stopped again by the monitor; wait until their shared
+			// informer has really gone (FactoryStore.Stop runs in a goroutine): a namespace that comes back must get a fresh
+			// informer, not one whose watch the fake cluster may never have established
+			gone := time.Now().Add(3 * time.Second)
+			for time.Now().Before(gone) {
+				have := map[string]bool{}
+				for _, n := range w.vm.Namespaces() {
+					have[n] = true
+				}
+				left := false
+				for idx := range kem.VerifFactoryUsers() {
+					if !have[idx.Namespace] && !isStatic(idx.Namespace) {
+						left = true
+					}
+				}
+				if !left {
+					break
+				}
+				time.Sleep(200 * time.Microsecond)
+			}
 			skipHandleNs = len(st["pendingNs"].([]interface{}))
 			if err := w.waitWatches(append(append([]string{}, nsStatic...), w.vm.Namespaces()...)); err != nil {
 				return bad(i, "DIV/watch-not-established", err.Error())
@@ -361,8 +383,35 @@ func replayNsCase(n int, c Case, ms *metricstorage.MetricStorage) Result {
 			kind, ns := fmt.Sprint(a[1]), fmt.Sprint(a[2])
 			before := strings.Join(w.vm.Namespaces(), ",")
 			if kind == "add" {
+				// informers that were cancelled for this namespace earlier are stopped by a goroutine: wait until their shared
+				// informer has gone, so that the namespace gets a fresh one (whose watch the harness can wait for)
+				known := false
+				for _, n := range w.vm.Namespaces() {
+					known = known || n == ns
+				}
+				if !known {
+					gone := time.Now().Add(3 * time.Second)
+					for time.Now().Before(gone) {
+						left := false
+						for idx := range kem.VerifFactoryUsers() {
+							left = left || idx.Namespace == ns
+						}
+						if !left {
+							break
+						}
+						time.Sleep(200 * time.Microsecond)
+					}
+				}
+				w.mu.Lock()
+				delete(w.off, ns)
+				w.mu.Unlock()
 				w.vm.NsAdd(nsObject(ns))
 			} else {
+				// a cancelled informer keeps delivering what it had pending until FactoryStore.Stop has run: such late events
+				// concern a namespace that is out of the binding's scope and are not part of the comparison
+				w.mu.Lock()
+				w.off[ns] = true
+				w.mu.Unlock()
 				if i%2 == 1 {
 					// a deletion learned from a re-list arrives as a tombstone
 					w.vm.NsDelete(cache.DeletedFinalStateUnknown{Key: ns, Obj: nsObject(ns)})
